@@ -81,7 +81,7 @@ impl<T> RawTable<T> {
         if item.in_main {
             self.table.erase(item.bucket);
         } else if let Some(ref mut lo) = self.leftovers {
-            lo.items.reflect_remove(&item.bucket);
+            lo.reflect_remove(&item.bucket);
             lo.table.erase(item.bucket);
         } else {
             unreachable!("invalid bucket state");
@@ -94,7 +94,7 @@ impl<T> RawTable<T> {
         if item.in_main {
             self.table.remove(item.bucket).0
         } else if let Some(ref mut lo) = self.leftovers {
-            lo.items.reflect_remove(&item.bucket);
+            lo.reflect_remove(&item.bucket);
             let (v, _) = lo.table.remove(item.bucket);
 
             if lo.table.len() == 0 {
@@ -315,7 +315,7 @@ impl<T> RawTable<T> {
             // hashbrown takes the element out of the table before it calls `f`, and only puts it
             // back if `f` returns `Some`. The cached iterator must be told about a removal
             // _before_ it happens, and must not go on to yield the bucket if `f` panics.
-            lo.items.reflect_remove(&bucket.bucket);
+            lo.reflect_remove(&bucket.bucket);
             let still_occupied = lo.table.replace_bucket_with(bucket.bucket, f);
             if still_occupied {
                 // The element is back in its bucket, but `reflect_insert` does not guarantee
@@ -608,6 +608,21 @@ struct OldTable<T> {
     // We cache an iterator over the old table's buckets so we don't need to do a linear search
     // across buckets we know are empty each time we want to move more items.
     items: raw::RawIter<T>,
+}
+
+impl<T> OldTable<T> {
+    /// Tells the cached iterator that `bucket` is about to be removed from the old table.
+    unsafe fn reflect_remove(&mut self, bucket: &raw::Bucket<T>) {
+        if mem::size_of::<T>() == 0 {
+            // `RawIter::reflect_remove` locates the bucket by pointer arithmetic, which is not
+            // defined for zero-sized elements (it panics). All values of a zero-sized type are
+            // equal, so the element being removed is the only one the table can hold, and the
+            // iterator is simply done.
+            self.items.by_ref().for_each(drop);
+        } else {
+            self.items.reflect_remove(bucket);
+        }
+    }
 }
 
 /// Iterator which returns a raw pointer to every full bucket in the table.
